@@ -28,7 +28,10 @@ RULE = ("all-shapes sweep (see exhaustive_subspace), then geometries: shapes H,W
         "mask; the Grid2D that carries the query points has its own native shape (any factorisation of the point count), unrelated to the geometry. Every array / Grid2D handed to "
         "the implementation is fingerprinted and compared after the call. Every case goes through the public entry point (Mask2D.geometry.*, Grid2D.from_mask / uniform, "
         "derive_grid.all_false / unmasked, the Mask2D constructors, Mask1D.geometry, Grid1D.from_mask / uniform) AND the util function; the OBJECT returned by the public entry "
-        "point (values, mask content, pixel scales, origin) is checked against the generated class-layer model and the specification. Non-trivial = non-square shape or "
+        "point (values, mask content, pixel scales, origin) is checked against the generated class-layer model and the specification; where the util function / a second entry "
+        "point returned exactly the same thing it is judged once. Arguments equal to the documented default (origin (0,0), centre (0,0), invert False) are NOT passed, so the "
+        "defaults themselves are exercised (12% of the geometries have origin (0,0)). Sibling mask cases (same shape and scales / other centre, same centre / other scales) follow "
+        "every circular case in the same process. Non-trivial = non-square shape or "
         "unequal scales or non-zero origin/centre or a history; distinct = distinct JSON input.")
 EXHAUSTIVE = {
     "quick": "every shape H x W with H, W <= 6 and every pixel of it: pixel-centre grid, centre -> (row, column) -> flat index "
